@@ -28,6 +28,7 @@ func safetyMode(prop, name string, byz bool) Mode {
 	m := Mode{Prop: prop, Name: name, Horizon: 600}
 	if byz {
 		m.Byz, m.Hold, m.Drop = true, true, true
+		m.Wire, m.Forge = true, true
 	} else {
 		m.Delay, m.Hold, m.Drop, m.Dup, m.Early = true, true, true, true, true
 	}
@@ -38,6 +39,7 @@ func livenessMode(name string, byz bool) Mode {
 	m := Mode{Prop: "C06", Name: name, Liveness: true, Horizon: 6000}
 	if byz {
 		m.Byz, m.Hold = true, true
+		m.Wire = true
 	} else {
 		m.Delay, m.Hold, m.Dup, m.Early = true, true, true, true
 	}
@@ -97,6 +99,17 @@ func plans(prop string, thorough bool, seed int64) []plan {
 			}
 		}
 	}
+	for _, sc := range byzOnlyScenarios() {
+		k, t := 1, 25*time.Second
+		if thorough {
+			k, t = 2, 100*time.Second
+		}
+		if prop == "C06" {
+			out = append(out, plan{sc, livenessMode("byzantine", true), k, t})
+		} else {
+			out = append(out, plan{sc, safetyMode(prop, "byzantine", true), k, t})
+		}
+	}
 	// scenarios around non-synchronous base schedules
 	for _, pp := range policyPlans(thorough) {
 		k := 1
@@ -115,6 +128,7 @@ func plans(prop string, thorough bool, seed int64) []plan {
 		}
 		m.Policy = pp.pol
 		m.ByzAll = pp.byzAll
+		m.Wire = true // the schedules around non-synchronous bases all take the two-stage validation route
 		out = append(out, plan{pp.sc, m, k, t})
 	}
 	return out
@@ -155,7 +169,7 @@ func main() {
 	}
 	chk := vcommon.NewCheck(*prop, "model_checking")
 	thorough := vcommon.Thorough()
-	var totalStates, totalTrans, totalExec, totalPruned, totalDiverged int64
+	var totalStates, totalTrans, totalExec, totalPruned, totalDiverged, totalProbes, totalForged int64
 	exhaustive := true
 	var perPlan []map[string]any
 	outcomes := map[string]struct{}{}
@@ -181,6 +195,8 @@ func main() {
 		totalExec += e.st.executions.Load()
 		totalPruned += e.st.pruned.Load()
 		totalDiverged += e.st.diverged.Load()
+		totalProbes += e.st.probes.Load()
+		totalForged += e.st.forged.Load()
 		for o := range e.outcomes {
 			outcomes[pl.sc.Name+"|"+o] = struct{}{}
 			chk.Distinct(pl.sc.Name + "|" + o)
@@ -192,7 +208,7 @@ func main() {
 		perPlan = append(perPlan, map[string]any{
 			"scenario": pl.sc.String(), "mode": pl.mode.Name, "bound_requested": K, "bound_completed": done,
 			"executions": e.st.executions.Load(), "states": e.st.states.Load(), "transitions": e.st.transitions.Load(),
-			"pruned_revisits": e.st.pruned.Load(), "replay_divergences": e.st.diverged.Load(), "end_reasons": ends,
+			"forgery_probes": e.st.probes.Load(), "pruned_revisits": e.st.pruned.Load(), "replay_divergences": e.st.diverged.Load(), "end_reasons": ends,
 			"distinct_outcomes": len(e.outcomes), "wall_s": el.Seconds(), "timed_out": e.timedOut.Load(),
 		})
 		fmt.Printf("%s %-18s %-17s K=%d/%d exec=%d states=%d trans=%d pruned=%d div=%d outcomes=%d ends=%v %.1fs\n",
@@ -225,6 +241,8 @@ func main() {
 	chk.Set("evaluations", totalExec)
 	chk.Set("pruned_revisits", totalPruned)
 	chk.Set("replay_divergences", totalDiverged)
+	chk.Set("forgery_probes", totalProbes)
+	chk.Set("forgeries_accepted_by_a_validator", totalForged)
 	chk.Set("exhaustive", exhaustive)
 	chk.Set("plans", perPlan)
 	chk.Set("rule", "every execution of N real gpbft.Participant objects with <=K deviations (delay/hold/drop/duplicate/early timer/Byzantine message) from the synchronous schedule, K iterated 0..bound, revisits of a canonical global state pruned; an outcome is the vector of per-participant decisions plus the end reason; distinct_nontrivial counts distinct (scenario,outcome) pairs")
